@@ -116,6 +116,7 @@ def run(ctx, rep):
         check_str_eq(crate, rep, cfg)
         check_keynum_ord(crate, rep, cfg)
         check_get_attr(crate, rep, cfg)
+        check_get_filter(crate, rep, cfg)
         c13.check_conv(crate, rep, cfg)     # a value becomes a key / a compared number without a saturating float->int or lossy cast
     pos = ctx.posctl()
     check_posctl(ctx, pos)
@@ -596,3 +597,16 @@ def check_get_attr(crate, rep, cfg):
     ok = not bad and bool(scans)
     rep.add("C15.ATTR", "C15.ATTR:get_attr:scan-skips-non-matching-keys", ok, b.where(0), "the small-map scan of get_attr only stops on a match (non-string keys are skipped), so dot "
             "access agrees with the keyed lookup" + ("" if ok else " — VIOLATED: gives up inside the scan at %s" % (bad[:2] or "scan not found")))
+
+
+def check_get_filter(crate, rep, cfg):
+    """C15.ATTR — the `get` filter finds what `m[k]` and `k in m` find: one Map lookup with `Key::Str(key)` built from the keyword argument
+    as it is — the key is not taken apart (split at dots, trimmed, followed as a path)."""
+    b = crate.one("filters::get")
+    rep.analysed(b)
+    names = {callee_def(t).rsplit("::", 1)[-1] for bd in crate.with_closures(b) for bb, t in bd.calls()}
+    apart = sorted(names & {"split_once", "split", "rsplit_once", "splitn", "find", "get_from_path", "trim", "strip_prefix", "strip_suffix", "to_lowercase", "contains", "char_indices"})
+    lookups = [(bb, t) for bb, t in b.calls() if callee_def(t).endswith("::get") and ("Map" in callee_def(t) or "Map<" in str(t.get("atys")))]
+    ok = len(lookups) == 1 and not apart
+    rep.add("C15.ATTR", "C15.ATTR:get-filter:one-lookup-of-the-key-as-given", ok, b.where(lookups[0][0]) if lookups else b.where(0), "filters::get is one map lookup of Key::Str(key), the "
+            "key untouched" + ("" if ok else " — VIOLATED: %s" % (("takes the key apart with %s" % apart) if apart else "%d lookups" % len(lookups))))
